@@ -139,7 +139,7 @@ static bool run_forked(const HarnessDef *h, uint64_t seed, const Decisions *repl
   if (g_shared->finished) { read_shared(g_shared, res, eff, desc); return true; }
   // abnormal death
   res = Result();
-  desc = "";
+  desc = g_shared->desc;
   std::string api = g_shared->cur_api;
   if (g_shared->infra || (WIFEXITED(st) && WEXITSTATUS(st) == 2)) { res.status = RS_INCONCLUSIVE; res.cls = "infra"; res.msg = g_shared->msg; return false; }
   std::string how;
